@@ -725,9 +725,11 @@ class Phase(Angle):
                 return NotImplemented
 
             if phases[0].imaginary == phases[1].imaginary:
-                diff = (phases[0]["int"] - phases[1]["int"]) + (
-                    phases[0]["frac"] - phases[1]["frac"]
-                )
+                # The difference of the fractions can be inexact; keep its rounding
+                # error, which decides when the rest cancels to zero exactly.
+                dfrac, err = two_sum(phases[0]["frac"], -phases[1]["frac"])
+                diff = (phases[0]["int"] - phases[1]["int"]) + dfrac
+                diff = np.where(diff == 0, err, diff)
                 return getattr(function, method)(diff, 0, **kwargs)
 
         elif (
